@@ -369,7 +369,19 @@ impl<'a> Gen<'a> {
     fn cmp(&mut self) -> Expression {
         use BinOpType::*;
         let op = *self.rng.pick(CMP_OPS);
-        match self.rng.below(13) {
+        match self.rng.below(14) {
+            13 => {
+                // comparison with a value at the edge of the signed or unsigned range, on either side; the constant joins
+                // the pool the initial states are biased around, so both outcomes are driven
+                let k = *self.rng.pick(&[i64::MAX, i64::MIN, -1, 0, i64::MAX - 1, i64::MIN + 1, -2, 1]);
+                self.consts.push(k);
+                let r = self.reg();
+                if self.rng.bool() {
+                    e_bin(op, e_const(k, 8), e_reg(r))
+                } else {
+                    e_bin(op, e_reg(r), e_const(k, 8))
+                }
+            }
             12 => {
                 // both sides derived from the SAME register by constant offsets: (R + k1) cmp (R + k2).
                 // The truth value depends on wrap-around for entry values in a tiny window, so the constants
@@ -1380,7 +1392,7 @@ fn collect_cmp_ops(e: &Expression, out: &mut BTreeSet<String>) {
 }
 
 fn run(cfg: &Cfg) -> Report {
-    let shards = cfg.tier.pick(256usize, 1024usize);
+    let shards = cfg.tier.pick(768usize, 1024usize);
     let per_shard = cfg.tier.pick(16usize, 12usize);
     let n_states = cfg.tier.pick(64usize, 1024usize);
     let max_blocks = cfg.tier.pick(64usize, 96usize);
